@@ -118,6 +118,29 @@ def fuzz(contract, seed=0, n=2000, budget_s=20, jit=False):
                   timeout=budget_s + 300)
 
 
+API_RUNNER = os.path.join(VERIF, "pyvc", "api_runner.py")
+
+
+def _env(jit):
+    env = dict(os.environ)
+    env["PYVC_REPO"] = REPO
+    env["PYTHONPATH"] = VERIF + os.pathsep + REPO
+    if jit:
+        env.pop("NUMBA_DISABLE_JIT", None)
+    else:
+        env["NUMBA_DISABLE_JIT"] = "1"
+    return env
+
+
+def api_standin(name, seed, budget_s, tier, jit=False):
+    p = subprocess.run([VENV_PY, API_RUNNER, name, str(seed), str(budget_s), tier], capture_output=True, text=True,
+                       env=_env(jit), timeout=budget_s + 900, cwd=VERIF)
+    lines = [l for l in p.stdout.strip().splitlines() if l.strip()]
+    if p.returncode != 0 or not lines:
+        return {"status": "error", "error": "api runner rc=%s\n%s\n%s" % (p.returncode, p.stdout[-1500:], p.stderr[-3000:])}
+    return json.loads(lines[-1])
+
+
 def main():
     """python3-vt -m pyvc.replay <replay.json>: re-run a recorded failing input on the current tree"""
     path = sys.argv[1]
@@ -126,6 +149,9 @@ def main():
         print("replay file records a failed obligation without a concrete input:")
         print(json.dumps({k: rec[k] for k in rec if k != "solver_output"}, indent=1)[:4000])
         sys.exit(0)
+    if rec.get("kind") == "api":
+        p = subprocess.run([VENV_PY, API_RUNNER, "--replay", rec["standin"], json.dumps(rec["args"])], env=_env(rec.get("jit", False)), cwd=VERIF)
+        sys.exit(p.returncode)
     if rec.get("kind") == "script":
         p = subprocess.run(rec["cmd"], shell=True, cwd=VERIF)
         sys.exit(p.returncode)
